@@ -38,6 +38,7 @@ RULE = ('(a) packet sequences with 1/3/5/9-byte type and length numbers and empt
 
 P1 = [rc.comp(8, b'p'), rc.comp(8, b'one')]
 P2 = [rc.comp(8, b'p'), rc.comp(8, b'two')]
+P3 = P1 + [rc.comp(1, b'\x5a' * 32)]
 H = [rc.comp(8, b'h')]
 HS = [rc.comp(8, b'h'), rc.comp(8, b'signed')]
 
@@ -441,6 +442,7 @@ def run_batch(ctx, fe, state, items):
         if state == 'busy':
             express('P1', P1, False)
             express('P2', P2, True)
+            express('P3', P3, True)        # names ONE packet by its hash (which no packet of the batch has); CanBePrefix set on top of it
             if fe == 'v2':
                 the_app.attach_handler(H, lambda n, p, reply, c: handler_log.append(('H', [bytes(x) for x in n])))
                 the_app.attach_handler(HS, lambda n, p, reply, c: handler_log.append(('HS', [bytes(x) for x in n])), v2_validator)
@@ -480,7 +482,7 @@ def run_batch(ctx, fe, state, items):
                     res['viol'].append((f'handler-invoked-by-{tgt[0]}:{fe}', f'handler {handler_log[-1][0]} was invoked by a well-formed {tgt[0]} packet', w))
                 elif len(handler_log) > nh:
                     ctx.event('handler-invoked-during-batch')
-                for key, nm, cbp in (('P1', P1, False), ('P2', P2, True)):
+                for key, nm, cbp in (('P1', P1, False), ('P2', P2, True), ('P3', P3, True)):
                     t = pend[key]
                     if t.done():
                         legit = False
@@ -510,6 +512,12 @@ def run_batch(ctx, fe, state, items):
             await the_app._receive(5, bytes(make_interest(H + [rc.comp(8, b'final')], InterestParam(nonce=9))))
             for _ in range(4):
                 await asyncio.sleep(0)
+            if pend['P3'].done():
+                res['viol'].append((f'bystander-finished:{fe}:by-final-data', 'the pending Interest that names a packet by a hash nobody sent was finished by the closing Data',
+                                    {'frontend': fe}))
+            else:
+                ctx.event('bystander-by-hash-still-pending')
+                pend['P3'].cancel()
             for key in ('P1', 'P2'):
                 t = pend[key]
                 if not t.done() or t.cancelled() or t.exception() is not None:
@@ -668,11 +676,125 @@ def check_udp(ctx, rng):
         loop.close()
 
 
+def check_handler_table_states(ctx, rng):
+    """Reachable states of the handler table that only callbacks produce: a handler (or an Interest validator) that detaches its own
+    prefix / another prefix / attaches a new one from inside its invocation, while further VALID Interests - already received in the
+    same turn of the loop, or waiting for their validator - are on their way to a handler.  Judged here: reception returns normally
+    and no background task ends with an unhandled error (who receives those Interests is C04's business)."""
+    for fe in ('v2', 'v1'):
+        for rep in range(ctx.n(40, 3000)):
+            res = {'viol': []}
+            plan = [rng.choice(['detach-self', 'detach-other', 'attach-new', 'detach-self', 'reattach-self']) for _ in range(3)]
+            n_int = rng.randint(2, 5)
+            signed = rng.random() < 0.5
+            outside_detach = rng.random() < 0.4
+
+            async def main(S):
+                face = RecFace()
+                the_app = appv2.NDNApp(face=face) if fe == 'v2' else appv1.NDNApp(face=face, keychain=KeychainDigest())
+                main_task = asyncio.ensure_future(the_app.main_loop())
+                await asyncio.sleep(0)
+                calls = []
+                A, B, N = [rc.comp(8, b'svc')], [rc.comp(8, b'svc'), rc.comp(8, b'deep')], [rc.comp(8, b'fresh')]
+
+                async def val2(name, sig, c):
+                    await asyncio.sleep(0.001)
+                    return types.ValidResult.PASS
+
+                async def val1(name, sig):
+                    await asyncio.sleep(0.001)
+                    return True
+
+                def attach(pre, fn):
+                    if fe == 'v2':
+                        the_app.attach_handler(pre, fn, val2)
+                    else:
+                        the_app.set_interest_filter(pre, fn, val1)
+
+                def detach(pre):
+                    try:
+                        if fe == 'v2':
+                            the_app.detach_handler(pre)
+                        else:
+                            the_app.unset_interest_filter(pre)
+                    except KeyError:
+                        pass        # (not attached any more: detaching what is not attached is outside the statement)
+
+                def act(own):
+                    if not plan:
+                        return
+                    op = plan.pop(0)
+                    ctx.event('table-edited-inside-a-callback:' + op)
+                    if op == 'detach-self':
+                        detach(own)
+                    elif op == 'detach-other':
+                        detach(B if own == A else A)
+                    elif op == 'attach-new':
+                        try:
+                            attach(N, make(N))
+                        except ValueError:
+                            pass
+                    else:
+                        detach(own)
+                        attach(own, make(own))
+
+                def make(own):
+                    if fe == 'v2':
+                        def h(name, app_param, reply, context):
+                            calls.append(own)
+                            act(own)
+                            reply(bytes(make_data(name, MetaInfo(), b'ok', DigestSha256Signer())))
+                    else:
+                        def h(name, param, app_param):
+                            calls.append(own)
+                            act(own)
+                            the_app.put_data(name, b'ok', signer=DigestSha256Signer())
+                    return h
+                attach(A, make(A))
+                attach(B, make(B))
+                tasks = []
+                for j in range(n_int):
+                    nm = (A if j % 2 == 0 else B) + [rc.comp(8, b'%d' % j)]
+                    if signed:
+                        wire = bytes(make_interest(nm, InterestParam(nonce=j + 1, lifetime=4000), b'prm', DigestSha256Signer(for_interest=True)))
+                    else:
+                        wire = bytes(make_interest(nm, InterestParam(nonce=j + 1, lifetime=4000)))
+                    tasks.append(face.deliver_task(wire))         # all within one turn of the loop (one read from the stream)
+                if outside_detach:
+                    await asyncio.sleep(0.0005)                   # the validators are waiting: the application detaches meanwhile
+                    detach(A)
+                    ctx.event('detach-while-a-validator-is-waiting')
+                for t in tasks:
+                    try:
+                        await t
+                    except Exception as e:   # noqa
+                        res['viol'].append((f'uncaught:{type(e).__name__}@{raising_site(e)[0]}<-{fe}', f'packet reception raised {e!r} (handlers edit the table from inside)', None))
+                await asyncio.sleep(0.05)
+                res['calls'] = len(calls)
+                the_app.shutdown()
+                await asyncio.wait_for(main_task, 5)
+
+            S = vtime.run(main)
+            w = {'frontend': fe, 'signed_interests': signed, 'interests_in_one_turn': n_int, 'detach_from_outside_during_validation': outside_detach}
+            ctx.case(('handler-table-states', fe, signed, n_int, outside_detach, rep % 7), nontrivial=True)
+            ctx.event('burst-to-table-editing-handlers')
+            for m, what, _ in res['viol']:
+                ctx.report(m, what, w)
+            if S.result != 'ok':
+                ctx.report(f'handler-table-scenario-{S.result}:{fe}', f'{S.error!r}', w)
+            for le in S.sentinel.all():
+                ex = le.get('exception') or le.get('exc')
+                site = raising_site(ex) if ex is not None else ('?', '?')
+                ctx.report(f'background:{type(ex).__name__ if ex else "?"}@{site[0]}<-{fe}:handlers-edit-the-table',
+                           f'valid Interests to handlers that edit the handler table from inside: a background task ended with an unhandled error: {le.get("repr")}', w)
+
+
 def run(ctx):
     ctx.rule = RULE
     rng = ctx.rng
     check_framing(ctx, rng)
     check_robustness(ctx, rng)
+    check_handler_table_states(ctx, rng)
     if ctx.shard == 0:
         check_finished_window(ctx, rng)
     if ctx.shard == 0:
@@ -686,5 +808,9 @@ def run(ctx):
     ctx.need_event('framing-second-connection-on-one-face')
     ctx.need_event('framing-gap-eof-with-last')
     ctx.need_event('finished-window')
+    ctx.need_event('bystander-by-hash-still-pending')
+    ctx.need_event('burst-to-table-editing-handlers')
+    ctx.need_event('table-edited-inside-a-callback:detach-self')
+    ctx.need_event('detach-while-a-validator-is-waiting')
     ctx.assumptions = ['handler exceptions and validator exceptions of user code are outside the statement (harness handlers never raise)',
                        '"legitimately addressed" = the bytes strictly decode (refcodec) to a Data/Nack matching the pending Interest']
